@@ -595,3 +595,32 @@ def replay_trace_job(chk, rp):
     chk.nontrivial(job.get("id"))
     chk.nontrivial("replay")
     return chk.finish()
+
+
+# --------------------------------------------------------------------------------------------
+# record acceptors (XrMapRepr, XrSeqRepr, ...): one ndjson line per record, TLC consumes them in order
+
+def accept_records(chk, module, records, name, chunk=5000, cfg=None):
+    """Feed `records` (dicts; keys starting with "_" are stripped) to the acceptor `module`.
+    Returns the list of rejected records; validation continues after each rejection."""
+    rejected = []
+    for b in range(0, len(records), chunk):
+        part = records[b:b + chunk]
+        while part:
+            d = workdir("acc-" + name)
+            path = os.path.join(d, "records.ndjson")
+            with open(path, "w") as f:
+                for t in part:
+                    f.write(json.dumps({k: v for k, v in t.items() if not k.startswith("_")}) + "\n")
+            rr = tlc(module, cfg or (module + ".cfg"), "acc-" + name + "-tlc", workers=1, env={"TRACE": path}, dfs=True)
+            chk.add_tlc(rr)
+            chk.cov["traces_validated_against_impl"] += 1
+            if '"TRACE_ACCEPTED"' in rr.out:
+                break
+            m = re.search(r'<<"TRACE_REJECTED_AT", (\d+),', rr.out)
+            if not m:
+                raise ToolError("%s failed:\n%s" % (module, rr.out[-2000:]))
+            k = int(m.group(1)) - 1
+            rejected.append(part[k])
+            part = part[k + 1:]
+    return rejected
